@@ -14,13 +14,13 @@ from sim.tape import jsonable
 
 ID = "C11"
 LEVEL = "exploration"
-QUICK_N = 12000
-THOROUGH_N = 400000
+QUICK_N = 40000
+THOROUGH_N = 600000
 CHUNK = 400
 RULE = ("gen(seed): stream over a delimiter-rich alphabet, arrival segments with gaps, "
         "recv_cap/defer/spurious tapes, read_chunk_size knob, op list of read_bytes/"
         "read_into/read_until/read_until_regex/read_until_close with pauses. "
-        "non-trivial = >=2 reads issued AND (>=2 distinct arrival instants or a short read "
+        "non-trivial = >=2 reads issued AND >=2 reads completed with data AND (>=2 distinct arrival instants or a short read "
         "fired) AND at least one read completed from the event handler (not inline); "
         "distinct = distinct scenario hash")
 COMPONENTS = {
@@ -62,7 +62,7 @@ def gen(rng, tier, index):
         n = rng.choice([5000, 20000, 65535, 65536, 65537, 140000, 262144])
         stream_spec = {"alpha": alpha.hex(), "len": n, "seed": rng.getrandbits(30)}
     else:
-        n = rng.choice([0, 1, 2, 5, 17, 40, 100, 300, 600]) if tier == "quick" else \
+        n = rng.choice([0, 1, 5, 17, 40, 100, 100, 300, 300, 600]) if tier == "quick" else \
             rng.choice([0, 1, 7, 64, 300, 1000, 4096, 4100])
         n = max(0, n + rng.randint(-3, 3)) if n > 3 else n
         stream_spec = "hex:" + bytes(rng.choice(alpha) for _ in range(n)).hex()
@@ -80,6 +80,8 @@ def gen(rng, tier, index):
             base = rng.choice([0, 1, 2, chunk - 1, chunk, chunk + 1, 2 * chunk, rem, rem + 1,
                                rng.randint(0, 40)])
             base = max(0, min(base, 300000))
+            if base > rem and rng.random() < 0.8:
+                base = rng.randint(0, rem)  # mostly satisfiable: keep the stream alive
             partial = rng.random() < 0.35
             ops.append({"op": "bytes", "n": base, "partial": partial, "pause": pause})
             if partial and base > 0:
@@ -90,6 +92,8 @@ def gen(rng, tier, index):
             base = rng.choice([0, 1, 2, chunk - 1, chunk, chunk + 1, 2 * chunk + 1, rem,
                                rng.randint(0, 40)])
             base = max(0, min(base, 300000))
+            if base > rem and rng.random() < 0.8:
+                base = rng.randint(0, rem)
             partial = rng.random() < 0.35
             ops.append({"op": "into", "n": base, "partial": partial, "pause": pause})
             if partial and base > 0:
@@ -99,12 +103,17 @@ def gen(rng, tier, index):
         elif k < 0.75:
             cands = [d for d in DELIMS if any(c in alpha for c in d)] or DELIMS
             d = rng.choice(cands)
+            if pos is not None and rng.random() < 0.8:
+                present = [x for x in cands if data.find(x, pos) >= 0]
+                if present:
+                    d = rng.choice(present)
             mx = None
             if rng.random() < 0.5:
                 if pos is not None:
                     j = data.find(d, pos)
                     dist = (j + len(d) - pos) if j >= 0 else rem
-                    mx = max(1, rng.choice([dist - 1, dist, dist + 1, dist // 2, dist * 2]))
+                    mx = max(1, rng.choice([dist - 1, dist, dist, dist + 1, dist + 1, dist // 2,
+                                            dist * 2, dist * 2]))
                 else:
                     mx = rng.choice([1, 2, 5, 20, 100, 5000])
             ops.append({"op": "until", "delim": "hex:" + d.hex(), "max": mx, "pause": pause})
@@ -452,7 +461,9 @@ def run(scn, full_log=False):
         st["probes"]["inline_completion"] = state["inline_done"]
         st["probes"]["handler_completion"] = state["handler_done"]
         n_arr = sum(1 for s in scn["segments"][1:] if s[1] > 0) + 1
-        nontrivial = (state["issued"] >= 2 and state["handler_done"] >= 1
+        ok_reads = sum(1 for o in outcome if isinstance(o[1], int))
+        st["probes"]["reads_ok"] = ok_reads
+        nontrivial = (state["issued"] >= 2 and ok_reads >= 2 and state["handler_done"] >= 1
                       and (n_arr >= 2 or st["faults"].get("short_read", 0) > 0))
         return {"violations": viol, "nontrivial": nontrivial, "stats": st,
                 "log_head": env.log.head if not full_log else env.log.head,
